@@ -331,6 +331,67 @@ def rule_G2(prog, fixture=False, only_compound=False):
                           "index bound comes from %s but no live guard relates its size to %s" % (
                               ", ".join("/".join(o) for o in missing), ", ".join("/".join(o) for o in sorted(bobjs))),
                           bobjs, foreign))
+        # running pointers: `const T2* src = rhs.data(); for (T& dst : _vec) { dst += *src; ++src; }` - how far the pointer is
+        # read is decided by the loop that advances it, i.e. by whatever bounds that loop
+        for node in f.walk():
+            if not (node.k == "UnaryOperator" and node.op == "*" and node.c):
+                continue
+            inner = node.c[0].strip_all()
+            if inner.k == "UnaryOperator" and inner.op in ("++", "--") and inner.c:
+                inner = inner.c[0].strip_all()
+            if not (inner.k == "DeclRefExpr" and inner.decl and inner.decl.get("k") == "local" and inner.tc == "ptr"):
+                continue
+            pid = inner.decl["id"]
+            decls = [v for v in f.walk() if v.k == "VarDecl" and v.decl and v.decl.get("id") == pid and v.c]
+            if len(decls) != 1:
+                continue
+            bobjs = {o for o in (ctx.base_objs(decls[0].c[0]) | ctx.base_objs(inner)) if o[0] in ("parm", "this")}
+            bobjs = {o for o in bobjs if o in cobjs or o == THIS}
+            if not bobjs:
+                continue
+            loop = None
+            for a in node.ancestors():
+                if a.k in ("ForStmt", "WhileStmt", "DoStmt", "CXXForRangeStmt"):
+                    adv = any(x.k in ("UnaryOperator", "CompoundAssignOperator") and x.op in ("++", "--", "+=", "-=") and x.c
+                              and x.c[0].strip_all().k == "DeclRefExpr" and x.c[0].strip_all().decl.get("id") == pid for x in a.walk())
+                    if adv:
+                        loop = a
+                        break
+            if loop is None:
+                continue
+            atoms = set()
+            if loop.k == "CXXForRangeStmt":
+                r = loop.role("range")
+                if r is not None:
+                    atoms = {(a[0], a[1], "size") for a in ctx.flow.deps(r, True)} if hasattr(ctx.flow, "deps") else set()
+            else:
+                c = loop.role("cond")
+                if c is not None:
+                    atoms = ctx.flow.deps(c)
+            foreign = set()
+            for a in atoms:
+                if len(a) < 3 or a[2] not in ("size", "val"):
+                    continue
+                o = ("parm", a[1]) if a[0] == "parm" else (THIS if a[0] == "this" else None)
+                if o is None or (o[0] == "parm" and o not in cobjs) or (o == THIS and a[2] != "size"):
+                    continue
+                if o not in bobjs:
+                    foreign.add(o)
+            if not foreign:
+                continue
+            missing, found = [], []
+            for fo in sorted(foreign):
+                g = None
+                for b in bobjs:
+                    g = ctx.relating_guard_at(node, b, fo, need_throw=need_throw_here)
+                    if g is not None:
+                        break
+                (found if g is not None else missing).append(g if g is not None else fo)
+            sites.append((node, "foreign-bound", not missing,
+                          ("guard %s" % found[0].cond.text()) if not missing else
+                          "the pointer is advanced by a loop bounded by %s but no live guard relates its size to %s" % (
+                              ", ".join("/".join(o) for o in missing), ", ".join("/".join(o) for o in sorted(bobjs))),
+                          bobjs, foreign))
         if is_compound:
             # G2a: "rejected with an exception and left unchanged" - every element write of the left operand is
             # dominated by the throwing size guard
@@ -342,9 +403,9 @@ def rule_G2(prog, fixture=False, only_compound=False):
                     if lhs is None:
                         continue
                     l = lhs.strip_all()
-                    if l.k == "DeclRefExpr":
+                    if l.k == "DeclRefExpr" and not _ref_into_this(ctx, l):
                         continue
-                    if any(r[0] == "this" for r in ctx.flow.root(l)):
+                    if any(r[0] == "this" for r in ctx.flow.root(l)) or _ref_into_this(ctx, l):
                         g = ctx.relating_guard_at(n, THIS, rhs_obj, need_throw=True)
                         sites.append((n, "element-write", g is not None,
                                       ("guard %s" % g.cond.text()) if g is not None else
@@ -398,6 +459,27 @@ def _own_param_name(arg, caller):
             if l.k == "DeclRefExpr" and l.decl and l.decl.get("id") == pid:
                 return None
     return a.decl.get("n")
+
+
+def _ref_into_this(ctx, l):
+    """a local reference that denotes an element of the object's own storage: the variable of `for (T& dst : _vec)`, `T& v = _vec[i]`"""
+    if not (l.k == "DeclRefExpr" and l.decl and l.decl.get("k") == "local"):
+        return False
+    dt = l.decl.get("dt") or ""
+    if not dt.rstrip().endswith("&"):
+        return False
+    for v in ctx.fn.walk():
+        if v.k == "VarDecl" and v.decl and v.decl.get("id") == l.decl["id"]:
+            par = v.parent
+            while par is not None and par.k in ("DeclStmt",):
+                par = par.parent
+            if par is not None and par.k == "CXXForRangeStmt":
+                r = par.role("range")
+                if r is not None and any(x.k in ("CXXThisExpr",) or (x.k == "MemberExpr" and x.decl and x.decl.get("k") == "field") for x in r.walk()):
+                    return True
+            if v.c and any(r_[0] == "this" for r_ in ctx.flow.root(v.c[0])):
+                return True
+    return False
 
 
 def _callers_guard(prog, f, bad, depth=0, trail=None):
@@ -610,6 +692,17 @@ def rule_Q1(prog, fixture=False):
             else:
                 res.add(key, DISCHARGED, where, what, "all %d uses lie behind a live check against nullptr" % uses, func=f.name,
                         extra={"props": ["C05"]})
+        # results that are not kept in a plain local (handed to a smart pointer, returned, stored in a member): seen, not decided
+        for c in f.walk():
+            if c.k == "CallExpr" and c.callee and c.callee.get("qn") in NULLABLE_SOURCES:
+                par = c.parent
+                while par is not None and par.k in ("ImplicitCastExpr", "ParenExpr", "ExprWithCleanups"):
+                    par = par.parent
+                if par is not None and par.k == "VarDecl" and par.tc == "ptr":
+                    continue
+                n += 1
+                res.add("Q1:%s:@%d" % (fkey(f), c.line), UNMODELLED, "%s:%d" % (rel, c.line), "%s in %s" % (c.text()[:50], f.short),
+                        "the result is not kept in a plain local pointer: its null check is not followed", func=f.name, extra={"props": ["C05"]})
     res.stats["nullable_results"] = n
     if not n and not fixture:
         res.broken.append("anchor vanished: no fopen-like call whose result is kept in a local (lib/utils.cpp:_from_file)")
